@@ -34,9 +34,96 @@ def body(ctx):
         ctx.replay_timeout = 180
         ctx.report('outbound-stream', f"{len(v01)} write-path obligations violated, e.g. {str(v01[0])[:250]}; confirmed by the native write-path differential", {'solver_counterexamples': [str(v)[:300] for v in v01[:6]]},
                    c01.NATIVE, inject_into='src/io_loop/mod.rs', profiles=('dev',), hang_is_violation=True, panic_is_violation=True)
+    negotiated_limit_handover(ctx, prog)
     if viol and not ctx.violations:
         for v in viol[:5]:
             ctx.inconclusive.append(f"C02 counterexample without native replay: {v}")
+
+
+def negotiated_limit_handover(ctx, prog):
+    """the limit channels split bodies at is the one the handshake negotiated: IoLoop::wait_for_amqp_handshake hands Channel0Handle::new
+    exactly the frame_max the I/O thread reported (= TuneOk.frame_max), whatever else the caller passes along (e.g. the client's own option)"""
+    from mirsym.engine import INT_TYPES
+    f = prog.method('IoLoop', 'wait_for_amqp_handshake')
+    f_new = prog.method('Channel0Handle', 'new')
+    ex = io_executor(ctx, prog)
+    fm = sym('done.frame_max', BV64)
+    def mk_h0():
+        common = mk_struct(prog, 'IoLoopHandle', channel_id=Int(0, 16), buf=Agg({0: ByteVec('b')}, 'OutputBuffer'), tx=Unit(), rx=Unit())
+        return mk_struct(prog, 'IoLoopHandle0', common=common, set_blocked_tx=Unit(), alloc_chan_req_tx=Unit(), alloc_chan_rep_rx=Unit())
+    st = State()
+    st.pc.append(z3.Or(fm == 0, z3.And(z3.UGE(fm, 4096), z3.ULE(fm, 0xffffffff))))
+    done = Chan('handshake_done', 1, True)
+    done.queue.append(Agg({0: Int(fm, 64), 1: Agg({}, 'FieldTable', 'server_props')}, 'tuple'))
+    done.senders = 0
+    args = [mk_h0(), Agg({}, 'JoinHandle', 'jh'), ReceiverVal(done)]
+    for i, (lid, ty) in enumerate(f.args[3:]):
+        if ty not in INT_TYPES:
+            raise Unsupported(f"wait_for_amqp_handshake takes an extra argument of type {ty}")
+        args.append(Int(sym(f'caller.extra{i}', z3.BitVecSort(INT_TYPES[ty][0])), INT_TYPES[ty][0], False))    # anything the caller may pass
+    ref = [r for r in ex.run(State(), f_new, [mk_h0(), Int(fm, 64)]) if not isinstance(r[1], Panic)]
+    names = prog.types.fields('Channel0Handle')
+    bad = []
+    for (s, rv) in ex.run(st, f, args):
+        ok = err_name(prog, rv) == 'Ok' and len(ref) >= 1
+        c = z3.BoolVal(bool(ok))
+        if ok:
+            got = rv.payloads[0].fields[0].fields[2]
+            # Channel0Handle::new may branch (0 = no limit): the reference is whichever of its paths applies to the reported value
+            c = z3.Or(*[z3.And(*(list(rs.pc) + [got.fields[names.index('frame_max')].bv == rvv.fields[names.index('frame_max')].bv])) for (rs, rvv) in ref])
+        m = ctx.decide('c02.negotiated-limit-handover', s.pc, c, group='the connection handle gets exactly the negotiated frame_max (the value the I/O thread reported after TuneOk), not a value of the caller\'s')
+        if m is not None:
+            bad.append(ctx.explain(m, [c]))
+    if bad:
+        ctx.report('negotiated-frame-max-not-used', f"wait_for_amqp_handshake builds the connection handle from something else than the negotiated frame_max: {str(bad[0])[:200]}", {'cex': str(bad[0])[:400]},
+                   HANDOVER_TEST, profiles=('dev',), hang_is_violation=True, panic_is_violation=True)
+
+
+HANDOVER_TEST = r"""
+use amq_protocol::frame::{AMQPFrame, gen_frame};
+use amq_protocol::protocol::{AMQPClass, connection, channel};
+use std::io::{Read, Write};
+fn frame_bytes(f: &AMQPFrame) -> Vec<u8> { let mut buf = vec![0u8; 1 << 16]; let n = { let (_, n) = gen_frame((&mut buf[..], 0), f).unwrap(); n }; buf.truncate(n); buf }
+fn read_raw(s: &mut std::net::TcpStream) -> Option<(u8, usize, Vec<u8>)> {
+    let mut h = [0u8; 7]; if s.read_exact(&mut h).is_err() { return None; }
+    let n = u32::from_be_bytes([h[3], h[4], h[5], h[6]]) as usize;
+    let mut rest = vec![0u8; n + 1]; if s.read_exact(&mut rest).is_err() { return None; }
+    let mut all = h.to_vec(); all.extend_from_slice(&rest);
+    Some((h[0], all.len(), all))
+}
+#[test]
+fn verif_replay_c02_negotiated_limit() {
+    // the broker proposes frame_max 8192, the client's own option says 1 MiB: the smaller one is negotiated and every frame obeys it
+    let l = std::net::TcpListener::bind("127.0.0.1:0").unwrap();
+    let port = l.local_addr().unwrap().port();
+    let server = std::thread::spawn(move || -> (usize, usize) {
+        let (mut s, _) = l.accept().unwrap();
+        s.set_read_timeout(Some(std::time::Duration::from_millis(3000))).unwrap();
+        let mut hdr = [0u8; 8]; s.read_exact(&mut hdr).unwrap();
+        s.write_all(&frame_bytes(&AMQPFrame::Method(0, AMQPClass::Connection(connection::AMQPMethod::Start(connection::Start { version_major: 0, version_minor: 9, server_properties: Default::default(), mechanisms: "PLAIN".into(), locales: "en_US".into() }))))).unwrap();
+        read_raw(&mut s).unwrap();
+        s.write_all(&frame_bytes(&AMQPFrame::Method(0, AMQPClass::Connection(connection::AMQPMethod::Tune(connection::Tune { channel_max: 10, frame_max: 8192, heartbeat: 0 }))))).unwrap();
+        read_raw(&mut s).unwrap(); read_raw(&mut s).unwrap();
+        s.write_all(&frame_bytes(&AMQPFrame::Method(0, AMQPClass::Connection(connection::AMQPMethod::OpenOk(connection::OpenOk { known_hosts: "".into() }))))).unwrap();
+        read_raw(&mut s).unwrap();   // channel.open
+        s.write_all(&frame_bytes(&AMQPFrame::Method(1, AMQPClass::Channel(channel::AMQPMethod::OpenOk(channel::OpenOk { channel_id: "".into() }))))).unwrap();
+        let mut body = 0usize; let mut largest = 0usize;
+        while body < 20000 { match read_raw(&mut s) { Some((ty, len, _)) => { if len > largest { largest = len; } if ty == 3 { body += len - 8; } } None => break } }
+        (body, largest)
+    });
+    let stream = mio::net::TcpStream::connect(&format!("127.0.0.1:{}", port).parse().unwrap()).unwrap();
+    let opts = crate::ConnectionOptions::<crate::Auth>::default().frame_max(1 << 20);
+    let mut bad: Vec<String> = Vec::new();
+    match crate::Connection::insecure_open_stream(stream, opts, crate::ConnectionTuning::default()) {
+        Ok(mut c) => { let ch = c.open_channel(None).unwrap(); ch.basic_publish("", crate::Publish::new(&vec![9u8; 20000], "q")).unwrap();
+                       let (body, largest) = server.join().unwrap();
+                       if body != 20000 || largest > 8192 { bad.push(format!("body_bytes={}:largest_frame={}:negotiated=8192", body, largest)); }
+                       std::mem::forget(ch); std::mem::forget(c); }
+        Err(e) => bad.push(format!("open-failed:{:?}", e).replace(' ', "")),
+    }
+    if bad.is_empty() { println!("VERIF-REPLAY-OK"); } else { println!("VERIF-REPLAY-VIOLATION negotiated-frame-max-not-used {}", bad.join(";")); }
+}
+"""
 
 
 def channels_via_negotiation(ctx, prog, ex, viol):
